@@ -54,6 +54,14 @@ pub struct Cfg {
     /// Coster returns the value's `size` (used when an insert passes cost 0); false = default 0
     pub coster: bool,
     pub callback: CallbackMode,
+    /// build through the constructor's DEFAULTS: buffer_size, buffer_items, cleanup interval,
+    /// metrics and ignore_internal_cost are not set (the fields above then hold the documented
+    /// defaults, which is what the oracles judge against)
+    #[serde(default)]
+    pub use_defaults: bool,
+    /// which constructor and which order of builder setters (see exec::build)
+    #[serde(default)]
+    pub recipe: u8,
 }
 
 #[derive(Serialize, Deserialize, Clone, Debug, PartialEq)]
